@@ -1,6 +1,8 @@
 """C02 — correspondence and monitor: see harness/ledger.py"""
-from . import ledger
+from . import kit, ledger
 
 
 def run(ctx):
-    return ledger.run_ledger(ctx, "C02")
+    res = ledger.run_ledger(ctx, "C02")
+    kit.optimised_interpreter_probe(res, "ledger")
+    return res
